@@ -67,7 +67,7 @@ def runs(ctx: Ctx):
         plan = []
         single = (len(group) == 1 and k % 3 == 0)
         for j, ident in enumerate(group):
-            ip = "10.%d.%d.%d" % (rng.randrange(256), rng.randrange(256), rng.randrange(1, 255))
+            ip = ("10.%d.%d.%d" % (rng.randrange(256), rng.randrange(256), rng.randrange(1, 255))) if rng.random() < 0.5 else "10.1.1.%d" % (1 + (k + 5 * j) % 20)
             ver = rng.choice([2, 3])
             rep = build(rng, ident, ip, ver, same_ip=rng.random() < 0.6)
             for c in range(rng.choice([1, 1, 2])):
@@ -113,7 +113,7 @@ def judge(ctx, vectors, prefix):
     import copy as _c
     cans = []
     src = next(v for v in vectors if v["result"])
-    c = _c.deepcopy(src); c["result"][0]["port"] = (c["result"][0]["port"] % 65535) + 1; cans.append(c)
+    c = _c.deepcopy(src); c["result"][0]["port"] = 7 if c["result"][0]["port"] != 7 else 8; cans.append(c)
     c = _c.deepcopy(src); c["result"][0]["id"][0] ^= 1; cans.append(c)
     c = _c.deepcopy(src); c["result"][0]["ip"] = "1.2.3.4"; cans.append(c)
     c = _c.deepcopy(src); c["probes"] = [p for p in c["probes"] if p["port"] != 20086]; cans.append(c)
@@ -129,7 +129,7 @@ def judge(ctx, vectors, prefix):
             continue
         if clause.startswith("harness"):
             raise MachineryError(f"Trace_Disc: {clause}")
-        if clause.startswith(prefix):
+        if prefix in clause.split(":")[0]:
             v = vectors[i]
             ctx.violation(f"discovery run with {len(v['arrivals'])} datagrams from {len({a['ip'] for a in v['arrivals']})} hosts", clause,
                           {"clause": clause, "arrivals": [{"ip": a["ip"], "port": a["port"], "data": bytes(a["data"]).hex()} for a in v["arrivals"]],
@@ -172,6 +172,6 @@ def replay(ctx: Ctx, path: str) -> int:
     v = disc.run_discovery(plan, target=c.get("target", "255.255.255.255"), single=c.get("target", "255.255.255.255") != "255.255.255.255")
     v.pop("devices", None)
     for i, clause in ctx.validate_vectors("Trace_Disc", [v]):
-        if clause.startswith(ctx.pid):
+        if ctx.pid in clause.split(":")[0]:
             ctx.violation("replayed discovery run", clause, c)
     return ctx.finish(rule="replay of one recorded discovery run")
